@@ -166,7 +166,8 @@ theorem complete_final (s1 : St) (j : Nat) (rest : List Nat) (v : Nat)
     have old : (s1.final.lookup c).isSome = true := by
       by_cases hxj : x = j
       · subst hxj
-        obtain ⟨w', hw'⟩ := EvalRel.answered hev c hc
+        obtain ⟨w', hw'⟩ := EvalRel.answered_exact (ρ := lfp P env)
+          (fun c w hw => hI.finalOk c w (hAv c w hw)) hev c hc
         rw [hAv c w' hw']; rfl
       · rw [lookup_cons_ne _ _ hxj] at hw'
         exact hI.finalClosed x w hw' c hc
@@ -291,7 +292,9 @@ theorem conv_final_ok (hconv : converged (cache1Of s1 j new) s1.prov = true) (c 
       cases hcx : cv1 s1 j new x with
       | some wx =>
         obtain ⟨v0, hv0, _⟩ := cv1_just P env s1 j v new hI hev h1 x wx hcx
-        obtain ⟨w', hw'⟩ := EvalRel.answered hv0 c hc
+        obtain ⟨w', hw'⟩ := EvalRel.answered_exact (ρ := fun x => (F x).getD 0)
+          (fun c w hw => by show w = (F c).getD 0; rw [show F c = some w from hd c w hw]; rfl)
+          hv0 c hc
         show (F c).isSome = true
         rw [show F c = some w' from hd c w' hw']; rfl
       | none =>
@@ -300,7 +303,18 @@ theorem conv_final_ok (hconv : converged (cache1Of s1 j new) s1.prov = true) (c 
         cases hfx : s1.final.lookup x with
         | none => rw [hfx] at hx'; cases hx'
         | some wx =>
-          have := hI.finalClosed x wx hfx c hc
+          have hcl : callees env (lfp P env) (P.node x).body
+              = callees env (fun x => (F x).getD 0) (P.node x).body := by
+            apply callees_congr
+            intro c' hc'
+            have := hI.finalClosed x wx hfx c' hc'
+            cases hfc : s1.final.lookup c' with
+            | none => rw [hfc] at this; cases this
+            | some wc =>
+              show lfp P env c' = (F c').getD 0
+              rw [show F c' = some wc from hd c' wc (Or.inl hfc)]
+              exact (hI.finalOk c' wc hfc).symm
+          have := hI.finalClosed x wx hfx c (by rw [hcl]; exact hc)
           cases hfc : s1.final.lookup c with
           | none => rw [hfc] at this; cases this
           | some wc =>
@@ -329,15 +343,16 @@ theorem conv_final_ok (hconv : converged (cache1Of s1 j new) s1.prov = true) (c 
           have hwx := hI.finalOk x wx hfx
           have : evalExpr env (fun x => (F x).getD 0) (P.node x).body
               = evalExpr env (lfp P env) (P.node x).body := by
+            symm
             apply evalExpr_congr
             intro c hc
             have := hI.finalClosed x wx hfx c hc
             cases hfc : s1.final.lookup c with
             | none => rw [hfc] at this; cases this
             | some wc =>
-              show (F c).getD 0 = lfp P env c
+              show lfp P env c = (F c).getD 0
               rw [show F c = some wc from hd c wc (Or.inl hfc)]
-              exact hI.finalOk c wc hfc
+              exact (hI.finalOk c wc hfc).symm
           rw [this, lfp_step, hwx]
           exact le_refl _
   have hs : (F c).isSome = true := by show ((stConv s1 j new).final.lookup c).isSome = true; rw [h]; rfl
@@ -380,7 +395,8 @@ theorem complete_converged (hconv : converged (cache1Of s1 j new) s1.prov = true
       cases hcx : cv1 s1 j new x with
       | some wx =>
         obtain ⟨v0, hv0, _⟩ := cv1_just P env s1 j v new hI hev h1 x wx hcx
-        obtain ⟨w', hw'⟩ := EvalRel.answered hv0 c hc
+        obtain ⟨w', hw'⟩ := EvalRel.answered_exact (ρ := lfp P env)
+          (fun c w hw => hok c w (hd c w hw)) hv0 c hc
         rw [hd c w' hw']; rfl
       | none =>
         rw [hcx] at hw
@@ -468,16 +484,15 @@ theorem ext_of_empty {s0 s' : St} (hp : s'.poisoned = s0.poisoned)
 theorem loop_spec (hNF : NoFallback P) {read : Nat → St → Res Fetched}
     (hR : ReadSpec P env read) (j : Nat) (s0 : St)
     (hs0 : ¬ HeadOn s0 → s0.cache = [] ∧ s0.prov = []) :
-    ∀ (fuel stamp : Nat) (outer : Bool) (s : St) (v : Nat) (hs : List Nat) (s' : St),
+    ∀ (fuel stamp : Nat) (s : St) (v : Nat) (hs : List Nat) (s' : St),
       Inv P env s → s.stack = j :: s0.stack → Ext s0 s →
-      (outer = true → ¬ HeadOn s0 ∧ isHead s.prov j = true) →
-      executeMaybeIterate P env read j outer fuel stamp s = .ok (v, hs, s') →
+      executeMaybeIterate P env read j fuel stamp s = .ok (v, hs, s') →
       Inv P env s' ∧ s'.stack = s0.stack ∧ Ext s0 s' ∧ Avail s' j v := by
   intro fuel
   induction fuel with
-  | zero => intro stamp outer s v hs s' _ _ _ _ h; simp [executeMaybeIterate] at h
+  | zero => intro stamp s v hs s' _ _ _ h; simp [executeMaybeIterate] at h
   | succ fuel ih =>
-    intro stamp outer s v hs s' hI hst hE0 houter h
+    intro stamp s v hs s' hI hst hE0 h
     unfold executeMaybeIterate at h
     cases hev : evalM env read (P.node j).body s with
     | error e => rw [hev] at h; cases h
@@ -492,10 +507,6 @@ theorem loop_spec (hNF : NoFallback P) {read : Nat → St → Res Fetched}
       have hv1 : le v1 (lfp P env j) := by
         rw [← lfp_step]
         exact EvalRel.upper (fun c w hw => hI1.avail_le P env hw) hrel
-      have hbT : ∀ {b : Bool}, (!outer && b) = true → b = true := by
-        intro b hb; cases outer <;> simp_all
-      have hbF : ∀ {b : Bool}, ¬ (!outer && b) = true → outer = true ∨ b = false := by
-        intro b hb; cases outer <;> cases b <;> simp_all
       cases hl : s1.prov.lookup j with
       | none =>
         rw [hl] at h
@@ -511,16 +522,15 @@ theorem loop_spec (hNF : NoFallback P) {read : Nat → St → Res Fetched}
           injection h with h; injection h with e1 h; injection h with e2 e3
           subst e1; subst e3
           obtain ⟨hI', hE', hA'⟩ := complete_cached P env s1 j s0.stack v1 v1
-            (hs1.filter (fun k => k != j)) hI1 hst1' (hbT hb) hrel (le_refl _) hv1
+            (hs1.filter (fun k => k != j)) hI1 hst1' hb hrel (le_refl _) hv1
           exact ⟨hI', htail, hE01.trans hE', hA'⟩
         · rename_i hb
           injection h with h; injection h with e1 h; injection h with e2 e3
           subst e1; subst e3
           have hX : s1.stack.tail.any (isHead s1.prov) = false := by
-            rcases hbF hb with ho | hx
-            · have := isHead_mono hE1 (houter ho).2
-              simp [isHead, hl] at this
-            · exact hx
+            cases hx : s1.stack.tail.any (isHead s1.prov) with
+            | true => exact absurd hx hb
+            | false => rfl
           obtain ⟨hI', hE', hA'⟩ := complete_final P env s1 j s0.stack v1 hI1 hst1' hX hl hrel
           exact ⟨hI', htail, hE01.trans hE', hA'⟩
       | some last =>
@@ -534,13 +544,10 @@ theorem loop_spec (hNF : NoFallback P) {read : Nat → St → Res Fetched}
           injection h with h; injection h with e1 h; injection h with e2 e3
           subst e1; subst e3
           obtain ⟨hI', hE', hA'⟩ := complete_cached P env s1 j s0.stack v1 (cycleFn P j last v1)
-            (hs1.filter (fun k => k != j)) hI1 hst1' (hbT hb) hrel hb1 hnew
+            (hs1.filter (fun k => k != j)) hI1 hst1' hb hrel hb1 hnew
           exact ⟨hI', htail, hE01.trans hE', hA'⟩
         · rename_i hb
-          have hno : ¬ HeadOn s0 := by
-            rcases hbF hb with ho | hx
-            · exact (houter ho).1
-            · exact not_headOn_of_not_below hE01 hst1' (by rw [hx]; exact fun h => nomatch h)
+          have hno : ¬ HeadOn s0 := not_headOn_of_not_below hE01 hst1' hb
           obtain ⟨hc0, hp0⟩ := hs0 hno
           split at h
           · rename_i hconv
@@ -561,8 +568,7 @@ theorem loop_spec (hNF : NoFallback P) {read : Nat → St → Res Fetched}
                   (by rw [hl]; rfl)
               have hE2 : Ext s0 (stIter s1 j (cycleFn P j last v1)) :=
                 ext_of_empty hE01.poisoned (fun c w hw => hE01.final c w hw) hc0 hp0
-              exact ih stamp' true _ v hs s' hI2 hst1' hE2
-                (fun _ => ⟨hno, isHead_stIter s1 j _ (by rw [hl]; rfl)⟩) h
+              exact ih stamp' _ v hs s' hI2 hst1' hE2 h
 
 theorem inv_push {s : St} {j : Nat} (hI : Inv P env s) (hj : j ∉ s.stack)
     (hf : s.final.lookup j = none) (hc : s.cache.lookup j = none) :
@@ -585,16 +591,15 @@ theorem execute_spec (hNF : NoFallback P) : ∀ d, ExecSpec P env (execute P env
   | succ d ih =>
     intro j s v hs s' hI hj hf hc h
     unfold execute at h
-    exact loop_spec P env hNF (fetch_spec P env hNF ih) j s hI.empty loopFuel _ false _ v hs s'
-      (inv_push P env hI hj hf hc) rfl ⟨rfl, fun _ _ h => h, fun _ _ h => h, fun _ _ h => h⟩
-      (fun h => nomatch h) h
+    exact loop_spec P env hNF (fetch_spec P env hNF ih) j s hI.empty loopFuel _ _ v hs s'
+      (inv_push P env hI hj hf hc) rfl ⟨rfl, fun _ _ h => h, fun _ _ h => h, fun _ _ h => h⟩ h
 
 /-- a database between requests: every memo is the least fixpoint, and the memoised set is
     closed under callees. -/
 structure DbOk (final : List (Nat × Nat)) : Prop where
   ok : ∀ c v, final.lookup c = some v → v = lfp P env c
   closed : ∀ x v, final.lookup x = some v →
-    ∀ c ∈ callees env (P.node x).body, (final.lookup c).isSome = true
+    ∀ c ∈ callees env (lfp P env) (P.node x).body, (final.lookup c).isSome = true
 
 theorem inv_init {final : List (Nat × Nat)} (h : DbOk P env final) (poisoned : List Nat) :
     Inv P env (St.init final poisoned) := by
